@@ -39,6 +39,8 @@ def build(par, family="Node", names=None, attrs=None):
                 nodes.append(F.NM(names[i]))
     elif family == "LIST":
         nodes = [F.ListNM(names[i], i % 2) for i in range(k)]
+    elif family == "TUPLE":
+        nodes = [F.TupleNM(names[i], i % 2) for i in range(k)]
     elif family == "FALSYNODE":
         nodes = [F.FalsyNode(names[i]) for i in range(k)]  # always falsy, also as a parent with children
     elif family == "MIX":
@@ -63,7 +65,7 @@ def build_ch(ch, family="Node", names=None):
     return nodes
 
 
-READ_FAMILIES = ("Node", "NM", "LM", "AnyNode", "VAL", "FALSY", "VALLM", "FALSYNODE", "ITER", "LIST")
+READ_FAMILIES = ("Node", "NM", "LM", "AnyNode", "VAL", "FALSY", "VALLM", "FALSYNODE", "ITER", "LIST", "TUPLE")
 
 
 def evolving_universe(ctx, rng, fam, k, steps, fault_rate=0.0):
